@@ -176,6 +176,10 @@ W_OPTS = {
     "Wn-aa": ("newton", {"L": 1e2, "linear_solver": "direct", "formulation": "pressure", "aa_depth": 2, "aa_restart": 3}),
     "Wb-d": ("bregman", {"L": 1.0, "linear_solver": "direct", "formulation": "pressure"}),
     "Wb-a": ("bregman", {"L": 1.0, "linear_solver": "amg", "formulation": "pressure", "linear_solver_options": {"atol": 1e-10}}),
+    # a penalty parameter other than that of the initial Darcy solve (L_init = 1): the cached linear
+    # solver of one call does not fit the first system of the next call
+    "Wb-L4": ("bregman", {"L": 4.0, "linear_solver": "direct", "formulation": "full"}),
+    "Wab-late-L4": ("adaptive-bregman-late", {"L": 0.25, "linear_solver": "direct", "formulation": "pressure"}),
     "Wb-aa": ("bregman", {"L": 1.0, "linear_solver": "direct", "formulation": "pressure", "aa_depth": 2, "aa_restart": 3}),
     "Wab-d": ("adaptive-bregman", {"L": 1.0, "linear_solver": "direct", "formulation": "pressure"}),
     "Wab-a": ("adaptive-bregman", {"L": 1.0, "linear_solver": "amg", "formulation": "pressure", "linear_solver_options": {"atol": 1e-10}}),
